@@ -1391,7 +1391,7 @@ pub fn skrifa_sweep(bytes: &[u8], seed: u64, focus: Option<Tag>, stats: &mut Sta
     gids.push(n);
     gids.push(0xFFFF);
     // configurations
-    let sizes = [Size::unscaled(), Size::new(12.0), Size::new(33.3), Size::new(1000.0), Size::new(f32::NAN), Size::new(f32::INFINITY), Size::new(0.0)];
+    let sizes = [Size::unscaled(), Size::new(12.0), Size::new(33.3), Size::new(1000.0), Size::new(f32::NAN), Size::new(f32::INFINITY), Size::new(0.0), Size::new(150_000.0), Size::new(4.0e6)];
     let mut cfgs: Vec<(usize, usize, u8, u8)> = Vec::new();
     for _ in 0..max_cfgs {
         cfgs.push((rng.usize_below(sizes.len()), rng.usize_below(2), rng.below(3) as u8, rng.below(7) as u8));
@@ -1716,6 +1716,11 @@ fn focused_draws(bytes: &[u8], orig: &FontRef, table: Tag, offset: usize, light:
         if let Ok(i) = HintingInstance::new(&outlines, sizes[2], LocationRef::new(&zero), HintingOptions { engine: crate::engines::drawhist::engine_of(1), target: crate::engines::drawhist::target_of(1) }) {
             insts.push(i);
         }
+    }
+    // one interpreter instance at a size where scaled coordinates approach the 26.6 range: products and sums of
+    // font-controlled values then reach the integer limits (the overflow clause of C20)
+    if let Ok(i) = HintingInstance::new(&outlines, Size::new(150_000.0), LocationRef::new(&zero), HintingOptions { engine: crate::engines::drawhist::engine_of(0), target: crate::engines::drawhist::target_of(1) }) {
+        insts.push(i);
     }
     for g in gids {
         let Some(glyph) = outlines.get(GlyphId::new(g)) else { continue };
